@@ -137,7 +137,7 @@ theorem jump_core (ph : Phys) (hv : ph.Valid) (ii : InitIce) (Tn : ℝ) (hT : Tn
 /-- cooling half of the solidifying step (`q ≤ 0`): `a = 1 − σ`, `Δ = σ' − σ`, `Tlo = T − lo`. -/
 theorem solid_cool (m cp cmin D L dt q Hs Tlo a B Δ : ℝ)
     (hm : 0 < m) (hcmin : 0 < cmin) (hcp : cmin ≤ cp) (hD : 0 < D) (hL : 0 < L) (hdt : 0 < dt)
-    (ha : 0 < a) (ha1 : a < 1)
+    (ha : 0 < a) (_ha1 : a < 1)
     (hB : B = cp * (D / a ^ 2) + L) (hΔeq : Δ * (m * B) = -(q * dt)) (hq : q ≤ 0)
     (hq1 : -q ≤ Hs * Tlo) (hT : 0 ≤ Tlo) (G : ℝ) (hHs : 0 ≤ Hs) (hG : Tlo ≤ G)
     (hX : (dt * Hs * G) ^ 2 ≤ m ^ 2 * (cmin * D * L)) (hcfl : 2 * (dt * Hs) ≤ m * cmin) :
@@ -361,6 +361,7 @@ theorem vialStep_cases (p : Params α) (tk : α) (isCN anyS : Bool) (v : Vial α
     rw [hm]
     rfl
 
+omit [Transc α] in
 theorem temps_getD (s : State α) (j : Nat) (v : Vial α) (d : α) (h : s.vials[j]? = some v) :
     (temps s).getD j d = v.T := by
   simp [temps, Array.getD_eq_getD_getElem?, h]
